@@ -590,7 +590,10 @@ def burst_sweep(res: Result) -> int:
             key = f"burst:{'noise' if noise else 'plain'}:{filler}"
             w = ConnWorld(noise=noise, keepalive=1e6)
             try:
-                w.connect_fully()
+                try:
+                    w.connect_fully()
+                except HarnessError:
+                    continue  # the plain connect sequence itself fails on this tree: the exploration below reports what is wrong
                 conn = w.conn
 
                 async def caller() -> tuple[str, str]:
